@@ -31,6 +31,7 @@ func init() {
 		Level: "exploration",
 		Rule: "an honest client V (real client, accept-everything update handler) and a peer M whose signing key the harness holds: at random points of a channel history (plain ledger channel, channel with locked sub-channels, pending sub-channel funding, pending sub-channel settlement) M sends crafted, correctly signed updates - valid successors with the wrong actor, signatures over other states, every edit of the locked sub-allocations with sums preserved (id, amount moved, index map added, entry added/removed/reordered), replays, " +
 			"funding updates rewritten on M's own link to debit the wrong party / both wrongly / with another amount or an index map / touching another sub-allocation, settlement updates crediting wrongly or renaming another sub-allocation. " +
+			"Hub workload: V is the hub of a virtual channel between M and an honest client; M's virtual channel funding and settlement proposals are rewritten on its own link (hub debited instead of M, one unit taken from the hub, debits/credits swapped, another sub-allocation renamed or drained, larger locked amount, other index map in the state). " +
 			"Monitor: inside V's persister callback for its own signature (under V's channel lock) the staged state is judged against V's current state by an independent acceptability predicate. A case is (life point, crafted update kind); non-trivial iff the crafted message reached V's update handling with >= 1 open channel",
 		Run:       run,
 		ChildMain: childMain,
@@ -47,7 +48,7 @@ func run(r *ev.Run, cfg props.Cfg) {
 		},
 	})
 	r.Assume("the actor of a staged state is taken from the tapped update message carrying that state")
-	r.Assume("virtual-channel funding/settlement at a hub is not part of this check's workload yet (sub-channel funding/settlement is)")
+	r.Assume("hub workload: the proposal message that carried a staged parent state (tapped on the bus) supplies the virtual channel's state and index map the predicate needs")
 }
 
 func childMain(cfg props.Cfg) int {
@@ -56,7 +57,12 @@ func childMain(cfg props.Cfg) int {
 	fmt.Sscanf(strings.TrimPrefix(cfg.Child, "main:"), "%d/%d", &w, &W)
 	n := cfg.Pick(2000, 40000)/W + 1
 	rng := gen.NewRand(cfg.Seed, fmt.Sprintf("c07/%d", w))
-	for done := 0; done < n; {
+	for done, k := 0, 0; done < n; k++ {
+		if k%4 == 3 {
+			// the hub workload yields one or two crafted proposals per arena; weigh it like the others
+			done += 8 * hubHistory(em, em, rng, w == 0 && k == 3)
+			continue
+		}
 		done += history(em, em, rng, w == 0 && done == 0)
 	}
 	em.Done()
